@@ -299,6 +299,12 @@ func (t *Thread) processIncomingInterest(packet *defn.Pkt) {
 	// If NextHopFaceId set, forward to that face (if it exists) or drop
 	if packet.NextHopFaceID != nil {
 		if dispatch.GetFace(*packet.NextHopFaceID) != nil {
+			// Check if violates /localhost
+			if dispatch.GetFace(*packet.NextHopFaceID).Scope() == defn.NonLocal &&
+				len(interest.NameV) > 0 && bytes.Equal(interest.NameV[0].Val, LOCALHOST) {
+				core.LogWarn(t, "Interest ", packet.Name, " cannot be sent to non-local NextHopFaceId=", *packet.NextHopFaceID, " since violates /localhost scope - DROP")
+				return
+			}
 			core.LogTrace(t, "NextHopFaceId is set for Interest ", packet.Name, " - dispatching directly to face")
 			dispatch.GetFace(*packet.NextHopFaceID).SendPacket(dispatch.OutPkt{
 				Pkt:      packet,
